@@ -88,7 +88,11 @@ private:
 
     // (3) - this release-store synchronizes-with the acquire-fence (4)
     control_block->local_epoch.store(epoch, std::memory_order_release);
-    detail::delete_objects(retire_lists[epoch]);
+    // Detach the list before deleting the objects: a deleter may retire further objects (and thereby
+    // re-enter this function), which must neither be added to the list we are iterating nor see it.
+    auto* nodes = retire_lists[epoch];
+    retire_lists[epoch] = nullptr;
+    detail::delete_objects(nodes);
   }
 
   void add_retired_node(detail::deletable_object* p, size_t epoch) {
